@@ -11,3 +11,4 @@ open Servlin.Server
 #print axioms C13_inflight_completes
 #print axioms C13_conn_after_revoke
 #print axioms C13_task_under_permit
+#print axioms C13_stops_while_serving
